@@ -504,42 +504,62 @@ func outputVariable(c *an.Ctx, r *runnerRoles, rule string) {
 		c.Check(good, rule, fmt.Sprintf("%s:Output-carried(edge from block %s)", an.Short(f), pred.Comment), phi.Pos(), "the next command's Output is this command's result", "on a way round the loop the carried output is not refreshed with the result of the command just executed ("+an.Prov(e)+"): the next command reads a stale Output")
 	}
 	// executor: suffix from the recorded offset
-	ex := c.P.Func("pkg/executor", "DefaultExecutor", "Execute")
+	er := resolveExec(c.P)
+	ex := er.ex
 	if ex == nil {
 		return
 	}
-	var run ssa.Instruction
-	for _, ci := range an.CallsIn(ex, "(*mvdan.cc/sh/v3/interp.Runner).Run") {
-		run = ci
-	}
-	good := run != nil
+	// on every path of Execute (helpers inlined) that ran the interpreter: what is returned is
+	// buf.Bytes()[offset:] with offset = buf.Len() taken before the interpreter ran
+	good := er.run != nil
 	n := 0
-	for _, ret := range an.Returns(ex) {
-		if run == nil || !an.Dominates(run, ret) {
-			continue
-		}
-		n++
-		sl, ok := an.RetVal(ret, 0).(*ssa.Slice)
-		if !ok {
-			good = false
-			continue
-		}
-		isBytes := false
-		for _, src := range an.Sources(sl.X) {
-			if call, ok := src.(*ssa.Call); ok && an.ShortCallee(&call.Call) == "(*bytes.Buffer).Bytes" && an.FieldProv(call.Call.Args[0]) == "DefaultExecutor.buf" {
-				isBytes = true
+	if er.run != nil {
+		exp := er.explorer()
+		exp.Effect = func(in ssa.Instruction, st *an.State) string {
+			if in == ssa.Instruction(er.run) {
+				return "run"
 			}
+			if call, ok := in.(*ssa.Call); ok && an.ShortCallee(&call.Call) == "(*bytes.Buffer).Len" && an.FieldProv(call.Call.Args[0]) == "DefaultExecutor.buf" {
+				return fmt.Sprintf("len@%d", call.Pos())
+			}
+			return ""
 		}
-		offOK := false
-		if sl.Low != nil && sl.High == nil {
-			for _, src := range an.Sources(sl.Low) {
-				if call, ok := src.(*ssa.Call); ok && an.ShortCallee(&call.Call) == "(*bytes.Buffer).Len" && an.Dominates(call, run) {
-					offOK = true
+		for _, o := range exp.Run(ex, ex.Blocks[0], nil, nil) {
+			if o.End != "return" || !has(o.Effects, "run") || len(o.RetVals) == 0 {
+				continue
+			}
+			n++
+			sl, ok := o.Root(o.RetVals[0]).(*ssa.Slice)
+			if !ok {
+				good = false
+				continue
+			}
+			isBytes := false
+			for _, src := range an.Sources(sl.X) {
+				if call, ok := src.(*ssa.Call); ok && an.ShortCallee(&call.Call) == "(*bytes.Buffer).Bytes" && an.FieldProv(call.Call.Args[0]) == "DefaultExecutor.buf" {
+					isBytes = true
 				}
 			}
-		}
-		if !isBytes || !offOK {
-			good = false
+			offOK := false
+			if sl.Low != nil && sl.High == nil {
+				for _, src := range an.Sources(o.Root(sl.Low)) {
+					if call, ok := src.(*ssa.Call); ok && an.ShortCallee(&call.Call) == "(*bytes.Buffer).Len" {
+						// taken before the interpreter ran on this path
+						tag := fmt.Sprintf("len@%d", call.Pos())
+						for _, e := range o.Effects {
+							if e == tag {
+								offOK = true
+							}
+							if e == "run" {
+								break
+							}
+						}
+					}
+				}
+			}
+			if !isBytes || !offOK {
+				good = false
+			}
 		}
 	}
 	c.Check(good && n > 0, rule, an.Short(ex)+":output-suffix", ex.Pos(), "Execute returns the buffer contents written since just before the interpreter ran", "Execute does not return buf.Bytes()[offset:] with the offset taken before the interpreter ran")
